@@ -23,7 +23,7 @@ pub struct Bounds {
 
 pub fn bounds(thorough: bool) -> Bounds {
     if thorough {
-        Bounds { max_init: 4, max_init_wide: 3, rounds: 3, max_new: 2, inline_items: 4, multi_pair_items: 3, multi_triple_items: 3, multi_triple_total: 5, prog_n: 4, cap: 400_000_000 }
+        Bounds { max_init: 4, max_init_wide: 3, rounds: 4, max_new: 1, inline_items: 4, multi_pair_items: 3, multi_triple_items: 3, multi_triple_total: 6, prog_n: 4, cap: 20_000_000_000 }
     } else {
         Bounds { max_init: 3, max_init_wide: 2, rounds: 3, max_new: 1, inline_items: 3, multi_pair_items: 2, multi_triple_items: 2, multi_triple_total: 4, prog_n: 3, cap: 50_000_000 }
     }
